@@ -45,11 +45,17 @@ def canon_atom(src, pol):
             op, pol = ast.In, not pol
         if op is ast.Eq and src_of(l) > src_of(r):
             l, r = r, l
-        if op is ast.Lt:
-            # integer comparison: move everything to one side when linear:  a < b  ->  canonical "a - b < 0" spelled with sorted terms
+        if op is ast.Lt or (op is ast.Eq and _numeric(ast.BinOp(left=l, op=ast.Sub(), right=r)) and not any(isinstance(x, ast.Constant) and isinstance(x.value, str) for x in (l, r))):
+            # integer comparison: everything on one side, terms sorted, first coefficient positive:  a < b  ->  "a - b < 0"
             d = linear(ast.BinOp(left=l, op=ast.Sub(), right=r))
             if d is not None and d:
-                return '%s < 0' % show(d), pol
+                first = sorted(d)[0]
+                sym = '<' if op is ast.Lt else '=='
+                if d[first] < 0:
+                    d = {k: -v for k, v in d.items()}
+                    if op is ast.Lt:
+                        sym = '>'
+                return '%s %s 0' % (show(d), sym), pol
         sym = {ast.Lt: '<', ast.Eq: '==', ast.Is: 'is', ast.In: 'in'}.get(op)
         if sym:
             return '%s %s %s' % (canon(l), sym, canon(r)), pol
@@ -171,7 +177,7 @@ def _loop_text(q, n, r):
             carried = sorted({x.id for st in n.body for x in ast.walk(st) if isinstance(x, ast.Name) and isinstance(x.ctx, ast.Store)})
             env = {}
             for k, v in q.env.items():
-                env[k] = q.resolve(v)          # spelled over the inputs (outer snapshots / calls written out)
+                env[k] = q.resolve(v, objects=False)          # spelled over the inputs (outer snapshots / calls written out)
             for c in carried:
                 env[c] = ast.Name(id='_acc_' + c, ctx=ast.Load())
             stmts = list(n.body)
@@ -202,7 +208,7 @@ def _loop_text(q, n, r):
         try:
             import copy as _copy
             from .shape import _Sub
-            it = _Sub({k: q.resolve(v) for k, v in q.env.items()}, 1).visit(_copy.deepcopy(n.iter))
+            it = _Sub({k: q.resolve(v, objects=False) for k, v in q.env.items()}, 1).visit(_copy.deepcopy(n.iter))
         except Exception:
             pass
         return 'loop for each of %s do %s' % (r(it), btxt)
@@ -213,7 +219,7 @@ def _render(q):
     """effects and result of a path with positional references: `__i` is the value of the i-th effect (a call), `old<t>(e)` is
     the value expression e had before effect t (a snapshot).  Everything else is read at the point where it appears:
     an effect's operands just before the effect, the result at the end."""
-    evs = [(i, sym, n) for i, (sym, n, _) in enumerate(q.events) if sym.startswith('_c') or sym == '=' or sym.startswith('_loop')]
+    evs = [(i, sym, n) for i, (sym, n, _) in enumerate(q.events) if sym.startswith('_c') or sym == '=' or sym.startswith('_loop') or sym == '@new']
     pos = {}            # event index -> effect number
     for k, (i, sym, n) in enumerate(evs):
         pos[i] = k
@@ -243,6 +249,8 @@ def _render(q):
             self.use, self.depth = use, depth
 
         def visit_Name(self, node):
+            if node.id.startswith('_o') and node.id[2:].isdigit():
+                return ast.Name(id='obj%s' % node.id[2:], ctx=ast.Load())
             if node.id in symno:
                 return ast.Name(id='__%d' % symno[node.id], ctx=ast.Load())
             if node.id.startswith('_c') and node.id[2:].isdigit():
@@ -256,12 +264,29 @@ def _render(q):
                 return ast.Call(func=ast.Name(id='old%d' % t, ctx=ast.Load()), args=[inner], keywords=[])
             return node
 
+    # in conditions a call result is spelled as the call itself (with #k when the same call text occurs again on the path)
+    ctext = {}
+    seen_txt = {}
+    for k, (i, sym, n) in enumerate(evs):
+        if sym.startswith('_c'):
+            t = canon(R(k).visit(copy.deepcopy(n)))
+            seen_txt[t] = seen_txt.get(t, 0) + 1
+            ctext['__%d' % k] = t if seen_txt[t] == 1 else '%s#%d' % (t, seen_txt[t])
+
+    class RC(ast.NodeTransformer):
+        def visit_Name(self, node):
+            if node.id in ctext:
+                return ast.Name(id='<%s>' % ctext[node.id], ctx=ast.Load())
+            return node
+
     def r(e, use=None):
         return canon(R(len(evs) if use is None else use).visit(copy.deepcopy(e)))
     eff = []
     for k, (i, sym, n) in enumerate(evs):
         if sym.startswith('_c'):
             eff.append('call ' + r(n, k))
+        elif sym == '@new':
+            eff.append('new obj%s = %s' % (n.targets[0].id[2:], r(n.value, k)))
         elif sym == '=':
             eff.append('store %s = %s' % (r(n.targets[0], k), r(n.value, k)))
         else:
@@ -280,7 +305,7 @@ def _render(q):
             e = ast.parse(s_.split('@')[0], mode='eval').body
         except SyntaxError:
             continue
-        conds.append((R(len(evs)).visit(e), pol))
+        conds.append((RC().visit(R(len(evs)).visit(e)), pol))
     return conds, eff, ret
 
 
@@ -311,43 +336,22 @@ def _cases(project, func, pure=(), inline=False, select=None, unroll=False):
 
 
 def check(project, func, rows, **kw):
-    """rows: [(partial assignment {atom: bool}, expected outcome string)].
-    -> (status, details)  status in 'ok' | 'differs' | 'unknown'
-       differs: [(row assignment, expected, Case)] ; unknown: reason"""
+    """rows: [(partial assignment {canonical atom: bool}, expected outcome string)].
+    -> ('ok', n) | ('differs', [(row assignment, expected, Case)]) | ('unknown', reason)"""
     try:
         cs = cases(project, func, **kw)
     except sympath.Unsupported as e:
         return 'unknown', str(e)
     if not cs:
         return 'unknown', 'no feasible path'
-    norm_rows = []
-    for assign, want in rows:
-        norm_rows.append((dict(assign), want))          # spec atoms are written in canonical form already
-    differs = []
-    covered = set()
-    for a, want in norm_rows:
-        hit = False
-        for i, c in enumerate(cs):
-            if all(c.conds.get(k, v) == v for k, v in a.items()):
-                # consistent with the row; it belongs to the row only if it also *establishes* the row (all row atoms assumed) or the row is the only consistent one
-                if all(k in c.conds for k in a):
-                    hit = True
-                    covered.add(i)
-                    if c.outcome() != want:
-                        differs.append((a, want, c))
-        if not hit:
-            # no path establishes the row: maybe the function does not test an atom the spec distinguishes -> take all consistent paths
-            for i, c in enumerate(cs):
-                if all(c.conds.get(k, v) == v for k, v in a.items()):
-                    covered.add(i)
-                    if c.outcome() != want:
-                        differs.append((a, want, c))
-    if differs:
-        return 'differs', differs
-    if len(covered) != len(cs):
-        extra = [c for i, c in enumerate(cs) if i not in covered]
-        return 'unknown', 'paths outside the specified cases: ' + ' | '.join('%s -> %s' % (c.cond_str(), c.outcome()) for c in extra[:3])
-    return 'ok', len(cs)
+    st, det = check_rows([(c.conds, c.outcome()) for c in cs], [(dict(a), w) for a, w in rows])
+    if st == 'differs':
+        out = []
+        for wc, wo, hc, ho in det:
+            c = next(c for c in cs if c.conds == hc and c.outcome() == ho)
+            out.append((wc, wo, c))
+        return 'differs', out
+    return st, det
 
 
 # ---------------------------------------------------------------------- segmented tables (functions with top-level loops)
@@ -373,8 +377,8 @@ def _env_suffix(case, names, order=None):
     parts = []
     for n in sorted(names, key=(lambda x: (order.index(x) if order and x in order else 999, x))):
         if n in q.env:
-            v = q.resolve(q.env[n])
-            parts.append('%s := %s' % (n, canon(v)))
+            v = q.resolve(q.env[n], objects=False)
+            parts.append('%s := %s' % (n, canon(v).replace('_o', 'obj') if False else canon(v)))
     return ' ; '.join(parts)
 
 
@@ -408,9 +412,9 @@ def segments(project, func, inline=True, select=None):
         common = {}
         if through:
             for n_ in set.intersection(*[set(q.env) for q in through]):
-                vals = {src_of(q.resolve(q.env[n_])) for q in through}
+                vals = {src_of(q.resolve(q.env[n_], objects=False)) for q in through}
                 if len(vals) == 1:
-                    common[n_] = through[0].resolve(through[0].env[n_])
+                    common[n_] = through[0].resolve(through[0].env[n_], objects=False)
         lp = body[ci]
         k += 1
         carried = names_in([lp])
@@ -517,24 +521,54 @@ def _table_rows(project, func, **kw):
     return rows
 
 
+_REL3 = frozenset(('LT', 'EQ', 'GT'))
+
+
+def atom_domain(atom, pol):
+    """(key, allowed values): an integer comparison `d < 0` / `d > 0` / `d == 0` (or their negations) constrains the sign of d,
+    so tests that differ only in the comparison operator talk about the same key; any other atom is a boolean"""
+    import re as _re
+    m = _re.match(r'^(.*) (<|>|==) 0$', atom)
+    if m and _re.match(r'^[+-]\d', m.group(1)):
+        rel = {'<': {'LT'}, '>': {'GT'}, '==': {'EQ'}}[m.group(2)]
+        return 'sign(%s)' % m.group(1), frozenset(rel if pol else _REL3 - rel)
+    return atom, frozenset(('T',) if pol else ('F',))
+
+
+def _domains(conds):
+    out = {}
+    for k, v in conds.items():
+        key, allowed = atom_domain(k, v)
+        out[key] = out.get(key, allowed) & allowed
+    return out
+
+
 def check_rows(have, want):
     """compare the rows of one segment with the reviewed ones
        -> ('ok', n) | ('differs', [(want conds, want outcome, have conds, have outcome)]) | ('unknown', why)
-    Both tables partition the same space of atom assignments.  A path of the analysed tree and a reviewed row that are
-    consistent (no atom assumed both ways) describe at least one common assignment, so their outcomes must agree; this is
-    only concluded when the analysed path tests nothing outside the reviewed vocabulary (a new atom may be an equivalent
-    spelling of an old one, so nothing is concluded then)."""
+    Both tables partition the same space of assignments.  A path of the analysed tree and a reviewed row that are
+    consistent (no key constrained to disjoint values) describe at least one common assignment, so their outcomes must
+    agree; this is only concluded when the analysed path tests nothing outside the reviewed vocabulary of keys (a new
+    atom may be an equivalent spelling of an old one, so nothing is concluded then).  Integer comparisons are keyed by the
+    compared difference, so `a < b`, `a <= b` and `a == b` are tests of the same key."""
+    W = [(_domains(wc), wc, wo) for wc, wo in want]
+    H = [(_domains(hc), hc, ho) for hc, ho in have]
     vocab = set()
-    for conds, _ in want:
-        vocab |= set(conds)
+    for d, _, _ in W:
+        vocab |= set(d)
     hv = set()
-    for conds, _ in have:
-        hv |= set(conds)
+    for d, _, _ in H:
+        hv |= set(d)
     if hv - vocab:
         return 'unknown', 'tests outside the reviewed vocabulary: %s' % sorted(hv - vocab)[:4]
+
+    def consistent(a, b):
+        return all((a[k] & b[k]) for k in a if k in b)
     differs = []
-    for hc, ho in have:
-        cons = [(wc, wo) for wc, wo in want if all(hc.get(k, v) == v for k, v in wc.items())]
+    for hd, hc, ho in H:
+        if any(not v for v in hd.values()):
+            continue            # contradictory path
+        cons = [(wc, wo) for wd, wc, wo in W if consistent(hd, wd)]
         if not cons:
             return 'unknown', 'path outside the reviewed cases: %s' % hc
         for wc, wo in cons:
@@ -543,7 +577,7 @@ def check_rows(have, want):
                 break
     if differs:
         return 'differs', differs
-    for wc, wo in want:
-        if not any(all(hc.get(k, v) == v for k, v in wc.items()) for hc, ho in have):
+    for wd, wc, wo in W:
+        if not any(consistent(hd, wd) for hd, hc, ho in H):
             return 'unknown', 'reviewed case not realised: %s -> %s' % (wc, wo)
     return 'ok', len(have)
